@@ -533,6 +533,38 @@ def _free_vars(e):
     return out
 
 
+def concrete_fallback(mod, cfg, st, why):
+    """The symbolic run of this configuration was stopped by a proxy reaching a C boundary (loud by design). The configuration is then executed
+    on generic concrete values: an obligation that fails there is an ordinary, already replayed counterexample; if none fails the harness error stands."""
+    spec = mod.inputs(cfg)
+    found = False
+    for variant in (0, 1):
+        vals = {}
+        for i, (n, k) in enumerate(sorted(spec.items())):
+            vals[n] = (i + 2) if k == "int" else Fraction(2 * i + 3 + variant * 7, 4) * (-1 if (i + variant) % 3 == 2 else 1)
+        try:
+            Vc, Tc = concrete_inputs(spec, vals)
+            obs = run_concrete(mod, cfg, Vc)
+            names = [n for n, _P in mod.props(cfg, Tc, obs)]
+        except (HarnessError, Exception):  # noqa
+            continue
+        for name in names:
+            if name.startswith("canary:"):
+                continue
+            try:
+                v = eval_prop_concrete(mod, cfg, spec, vals, name)
+            except (HarnessError, Exception):  # noqa
+                v = None
+            if v is False:
+                st.failures.append({"cfg": cfg, "obligation": name, "vals": vals_to_json(vals), "key": mod.finding_key(cfg, name) if hasattr(mod, "finding_key") else name,
+                                    "claim": "(concrete fallback after: %s)" % why[:120]})
+                found = True
+        if found:
+            st.notes.append("concrete fallback used for %s (%s)" % (json.dumps(cfg)[:120], why[:80]))
+            return True
+    return False
+
+
 def _worker(args):
     modname, chunk, seed, tier = args
     import importlib
@@ -544,7 +576,8 @@ def _worker(args):
         try:
             process_item(mod, cfg, st, rng, tier)
         except HarnessError as e:
-            st.errors.append("HarnessError cfg=%s: %s" % (json.dumps(cfg)[:300], e))
+            if not concrete_fallback(mod, cfg, st, str(e)):
+                st.errors.append("HarnessError cfg=%s: %s" % (json.dumps(cfg)[:300], e))
         except Exception as e:  # noqa - a crash of harness code is a harness error, never a verdict
             st.errors.append("harness crash cfg=%s: %s" % (json.dumps(cfg)[:300], traceback.format_exc()[-1500:]))
     return st
